@@ -22,11 +22,11 @@ def run(ctx):
     # R1: from the worker loop, with every edge that enters a catch_unwind removed, no unguarded panic site is reachable
     def cut(e):
         return e.kind == "dyn-call-caught" or (e.kind == "call" and e.dst.startswith("std::panic::catch_unwind"))
-    r1, seen1, inv = panic_rule(ctx, chk, "C06", "R1-unwind-contained", R.worker_closures, cut=cut, floor=3)
+    r1, seen1, inv = panic_rule(ctx, chk, "C06", "R1-unwind-contained", R.worker_closures, cut=cut, floor=1)
     # the task must actually be reachable only through the guard: report how it is reached
     rg = chk.rule("R1b-task-runs-under-catch_unwind", "the worker invokes the received task only through std::panic::catch_unwind", floor=1)
     for wc in R.worker_closures:
-        fn = F.fns[wc]
+        fn = ctx.inl(F.fns[wc])
         jobs = c07.job_blocks(ctx, fn)
         for b, kind in jobs:
             ok = kind == "dyn-call-caught"
@@ -72,7 +72,7 @@ def run(ctx):
     r3 = chk.rule("R3-lock-released-before-task", "C07.R1: no lock guard live when the task is invoked (a stuck task must not block the queue)", floor=1)
     r4 = chk.rule("R4-worker-loop-has-no-exit", "C07.R3: the worker closure cannot return", floor=1)
     for wc in R.worker_closures:
-        fn = F.fns[wc]
+        fn = ctx.inl(F.fns[wc])
         jobs = c07.job_blocks(ctx, fn)
         live = c07.live_guards_at(fn, [b for b, _ in jobs])
         for b, _ in jobs:
